@@ -1412,6 +1412,16 @@ func (bc *BlockChain) reorg(oldBlock, newBlock *types.Block) error {
 		}
 		addedTxs = append(addedTxs, newChain[i].Transactions()...)
 	}
+	// Delete any canonical number assignments above the new head
+	// (the dropped chain may have been longer than the new one)
+	if err == nil && len(newChain) > 0 {
+		for i := newChain[0].NumberU64() + 1; ; i++ {
+			if GetCanonicalHash(bc.db, i) == (common.Hash{}) {
+				break
+			}
+			DeleteCanonicalHash(bc.db, i)
+		}
+	}
 
 	// regardless of WriteTxLookupEntries error
 	diff := types.TxDifference(deletedTxs, addedTxs)
